@@ -56,7 +56,7 @@ type Term struct {
 	name    string
 	id      int
 	h       uint64 // structural hash: independent of creation order, so that canonical operand order is the same in every worker
-	defined bool // a define-fun / declare-const has been sent to the solver
+	defined bool   // a define-fun / declare-const has been sent to the solver
 	fvDone  bool
 	fvN     int8  // number of distinct free variables, capped at 2
 	fv      *Term // the variable when fvN == 1
@@ -134,8 +134,8 @@ func mask(w uint8) uint64 {
 }
 
 func (t *Term) IsConst() bool { return t.op == OpConst }
-func (t *Term) W() int       { return int(t.w) }
-func (t *Term) IsBool() bool { return t.w == 0 }
+func (t *Term) W() int        { return int(t.w) }
+func (t *Term) IsBool() bool  { return t.w == 0 }
 
 // U returns the constant value zero-extended.
 func (t *Term) U() uint64 { return t.k }
